@@ -16,12 +16,12 @@ CHECKS = {
  'C04': dict(tech='E1: kernel contract K (incl. K-mono) of the real filter_utils functions as FP-SMT obligations over all doubles (cvc5/z3); E2: z3-decided paths of the real filter_pair of Size/Prefix/Position/Suffix/Overlap filters with a symbolic threshold under K, and of every _filter_tables_split under an arbitrary token order', note='pair cells <= 4 tokens; tables 1x2 rows; edit-distance measure covered in C03; conditional structure: E2 assumes K, E1 proves K for the size set; one known finding (SuffixFilter.filter_tables)', ref='5/C04'),
  'C05': dict(tech='E2: z3-decided paths of the real apply_matcher over the pandas model with an uninterpreted similarity function, symbolic integer threshold, six operators, symbolic candidate keys, missing flags, n_jobs; E1: split_table partition obligations (FP-SMT)', note='candset <= 3 (4) rows over 2x2 tables; pickling/real processes outside', ref='5/C05'),
  'C06': dict(tech='E2: z3-decided paths of the real Filter.filter_candset with an uninterpreted filter_pair (all filter behaviours at once) and with the five real filters; OverlapFilter exactness on symbolic cells / tables', note='candset <= 3 (4) rows incl. duplicate index labels; cells <= 3 tokens', ref='5/C06'),
- 'C07': dict(tech='E2 relational: on each z3-decided path the join and the pipeline (filter_tables of Size/Prefix/Position/Overlap filter, then apply_matcher with the py_stringmatching raw score) run on the same symbolic tables over the pandas model; key pairs and rounded scores compared, exclusions as path terms', note='integration check at a threshold grid with the real kernel (arithmetic for all thresholds: C01/C04); tables 2x2 (<=1 token) and 1x2 (<=2 tokens); edit-distance pipeline not covered', ref='5/C07'),
+ 'C07': dict(tech='E2 relational: on each z3-decided path the join and the pipeline (filter_tables of Size/Prefix/Position/Overlap filter, then apply_matcher with the py_stringmatching raw score) run on the same symbolic tables over the pandas model; key pairs and rounded scores compared, exclusions as path terms', note='integration check at a threshold grid with the real kernel (arithmetic for all thresholds: C01/C04); tables 2x2 (<=1 token) and 1x2 (<=2 tokens); edit-distance pipeline on strings <= 2 characters', ref='5/C07'),
  'C08': dict(tech='E2: z3-decided path exploration of every join and filter_tables over the pandas model with symbolic missing flags and configuration flags; trace validation against real pandas', note='tables <= 3x2, one token per cell; pandas/joblib modelled, guarded by replay + trace validation', ref='5/C08'),
  'C09': dict(tech='E2: z3-decided path exploration with symbolic token counts (0..k), allow_empty, operator; unconstrained kernel stubs and symbolic threshold for "whatever the threshold"', note='tables 2x2; pandas/joblib modelled', ref='5/C09'),
  'C10': dict(tech='E1: split_table executed on IEEE-double proxies with symbolic length -> partition obligations for all lengths <= 2^16 (z3/cvc5 FP); E2: relational path exploration (n_jobs=1 vs symbolic n_jobs and cpu count; row permutations; index relabelling) over the pandas model', note='other-process / hash-seed clause is outside (not expressible to a solver); joblib modelled sequentially, replays use real joblib', ref='5/C10'),
  'C11': dict(tech='E2: z3-decided path exploration over symbolic column orders, output-attribute lists, prefixes and missing/empty branches; every cell a distinct marker', note='2x2 rows, 4 columns; pandas modelled', ref='5/C11'),
- 'C13': dict(tech='E2 relational: join(A,B) vs join(B,A), laxer vs stricter threshold, >= vs > plus = on the same symbolic tables, z3-decided paths over the pandas model, no external oracle', note='threshold grid with the real kernel; five set joins; bundled datasets / large tables and edit distance are outside', ref='5/C13'),
+ 'C13': dict(tech='E2 relational: join(A,B) vs join(B,A), laxer vs stricter threshold, >= vs > plus = on the same symbolic tables, z3-decided paths over the pandas model, no external oracle', note='threshold grid with the real kernel; five set joins and the edit-distance join (strings <= 2 characters); bundled datasets / large tables are outside', ref='5/C13'),
  'C14': dict(tech='E1: size-window tightness as FP-SMT obligations over all doubles (cvc5/z3), edit-distance window over unbounded integers (z3); E2: z3-decided paths for counts-alone, no-common-token (unconstrained kernel stubs, symbolic threshold) and Position subset of Prefix/Size on shared symbolic tables', note='sizes in the size set; tables <= 2x2 with <= 3 tokens; 1e-9 guard band above the 1e-4 margin', ref='5/C14'),
  'C12': dict(tech='E2: inductive step (one call from either tokenizer mode leaves tokenizer and frames as found) + all ordered pairs of calls sharing objects, z3-decided paths over the pandas model; AST scan for module-level state', note='real pandas aliasing/CoW outside (replays compare real frames); histories > 2 calls by induction only', ref='5/C12'),
  'C15': dict(tech='E2: z3-decided paths over the matrix entry point x violated precondition (symbolic choice, symbolic out-of-range thresholds, symbolic missing flags) and over degenerate valid shapes, on the pandas model; exception type, tokenizer mode, no work done before rejection', note='dtypes are tags in the model; replays use real pandas dtypes', ref='5/C15'),
